@@ -196,6 +196,9 @@ class ImageBatch(DataTensor):
         ):
             if type(data) not in (tuple, list):
                 raise AssertionError(f"expected split 'data' to be tuple or list, got {type(data)}")
+            if grid is not None and all(isinstance(g, Grid) for g in grid):
+                # Split along other than batch dimension, all chunks have the same grids
+                grid = [grid] * len(data)
             if type(grid) not in (tuple, list):
                 raise AssertionError(f"expected split 'grid' to be tuple or list, got {type(grid)}")
             if len(grid) != len(data):
